@@ -128,6 +128,7 @@ example {α P : Type} [Zero α] [One α] [Add α] [Mul α] [Neg α] [Sub α] [Am
     ControlledBy S n nz ⟨control, "x", [.q t]⟩ control (CQ1.applyOn n CQ1.mX [t]) := by
   intro br
   simp [CQ1.stmtSem, CQ1.instrSem, CQ1.gateMatrix, CQ1.numArgs, CQ1.Instr.qubits]
+  split <;> rfl
 
 /-- NEGATIVE (repeated control bit): `control = [0, 0]`, `target = 0`, word 1: bit 0 is negated twice, the exported
 line fires, the circuit's gate (control word 3 ≠ 0) does not. -/
